@@ -136,7 +136,7 @@ def gen_case(rng, supervised):
         'M0': dym(M0), 'P0': dym(P0), 'pts': dym(pts) if prior_kind == 'covariance' else [], 'v': dym(V), 'y': [int(v) for v in lab], 'balance': dy(balance), 'alpha': dy(alpha),
         'L': [], 'Mstar': [], 'cholStar': [], 'logsStar': [], 'has_star': False, 'cholM': [], 'cholE': [], 'has_cholE': False, 'W': [], 'cholW': [], 'has_W': False, 'logsM': [], 'logsW': []}
   RE = chol_or_none(E)
-  ev['input_well_conditioned'] = bool(RE is not None and np.linalg.cond((E + E.T) / 2.0) < 100.0)
+  ev['base_solves_documented_problem'] = False
   if RE is not None:
     ev['cholE'], ev['has_cholE'] = dym(RE), True
   ev['solver_gave_up'] = False
@@ -185,6 +185,14 @@ def gen_case(rng, supervised):
     except Exception as e:
       ev['exc'] = type(e).__name__
       ev['exc_msg'] = str(e)[:100]
+      if supervised:
+        # the supervised wrapper failed: does the BASE learner solve the documented problem (the pairs and labels the
+        # helper's output means, the same hyper-parameters)?  If it does, the wrapper handed the solver something else.
+        try:
+          gen.SDML(balance_param=balance, sparsity_param=alpha, prior=prior_arg, random_state=seed).fit(pairs.copy(), lab.copy())
+          ev['base_solves_documented_problem'] = True
+        except Exception:
+          pass
   return ev
 
 
